@@ -17,16 +17,28 @@ partial def loop (h : IO.FS.Stream) (out : IO.FS.Stream) : IO Unit := do
       out.putStrLn "end-cover"
     | _, _ => out.putStrLn "bad-op"
   | ["labels", name, kind] =>
-    let k? : Option RJson.Abs.Kind := match kind with
-      | "skip" => some .skip | "fast" => some .fast | "harr" => some .harr | "hobj" => some .hobj | _ => none
-    match RJson.Driver.machineByName name, k? with
-    | some M, some k =>
-      let st := RJson.Label.label M (RJson.Abs.machine k)
-      match st.err with
-      | some e => out.putStrLn ("MISMATCH " ++ e)
-      | none => out.putStrLn (RJson.Label.render "labels" st)
-      out.putStrLn "end-labels"
-    | _, _ => out.putStrLn "bad-op"
+    let res : Option (Option String × String) :=
+      match RJson.Driver.machineByName name with
+      | none => none
+      | some M =>
+        let big (k : RJson.Abs.Kind) :=
+          let st := RJson.Label.label RJson.Label.asStr M (RJson.Abs.machine k)
+          some (st.err, RJson.Label.render RJson.Label.asStr "labels" st)
+        let lit (k : RJson.AbsSmall.LKind) :=
+          let st := RJson.Label.label RJson.Label.lsStr M (RJson.AbsSmall.lmachine k)
+          some (st.err, RJson.Label.render RJson.Label.lsStr "labels" st)
+        let str (k : RJson.AbsSmall.SKind) :=
+          let st := RJson.Label.label RJson.Label.ssStr M (RJson.AbsSmall.smachine k)
+          some (st.err, RJson.Label.render RJson.Label.ssStr "labels" st)
+        match kind with
+        | "skip" => big .skip | "fast" => big .fast | "harr" => big .harr | "hobj" => big .hobj
+        | "null" => lit .null | "bool" => lit .bool
+        | "append" => str .append | "unescape" => str .unescape
+        | _ => none
+    match res with
+    | some (some e, _) => out.putStrLn ("MISMATCH " ++ e); out.putStrLn "end-labels"
+    | some (none, txt) => out.putStrLn txt; out.putStrLn "end-labels"
+    | none => out.putStrLn "bad-op"
   | ["flush"] => out.flush
   | _ => out.putStrLn (RJson.Driver.runLine l)
   loop h out
